@@ -111,14 +111,18 @@ def aff(t, env, depth=0):
 
 
 def equal_mod(t1, t2, env, width):
-    """True when t1 == t2 modulo 2^width is provable from the affine forms."""
+    """True when t1 == t2 modulo 2^width is provable: from the affine forms, else by canonical bit-level comparison"""
     A = aff(t1, env)
     B = aff(t2, env)
     if A[2] < width or B[2] < width:
-        return False
+        from . import bvproof
+        return bvproof.equal_under(t1, t2, env, width) is True
     a = _norm(A[0], A[1], width)
     b = _norm(B[0], B[1], width)
-    return a[0] == b[0] and a[1] == b[1]
+    if a[0] == b[0] and a[1] == b[1]:
+        return True
+    from . import bvproof
+    return bvproof.equal_under(t1, t2, env, width) is True
 
 
 def diff_const(t1, t2, env, width):
@@ -130,5 +134,6 @@ def diff_const(t1, t2, env, width):
     a = _norm(A[0], A[1], width)
     b = _norm(B[0], B[1], width)
     if a[0] != b[0]:
-        return None
+        from . import bvproof
+        return bvproof.const_diff_under(t1, t2, env, width)
     return (a[1] - b[1]) & mask(width)
